@@ -78,6 +78,10 @@ def in_f1(ast):
 
 
 def run(ctx, log):
+    eo_ = progcheck.evaluation_order_family()
+    progcheck.pipeline(ctx, eo_, log, budget=20000, label="evaluation-order", shard_size=60)
+    for s_ in eo_:
+        ctx.seen(("evaluation-order", s_))
     progcheck.run_unspecified(ctx, log)
     # enumerated families decided by Sem.v: how function / loop bodies end; names that live in several name spaces
     extra_sem_families = []
